@@ -194,7 +194,7 @@ def iban_shard(args):
         blist += bases.base_ibans(country, ["seeded"])
     for filler, base in blist:
         gens = [families.single_edits(base, W), families.iban_lengths(base),
-                families.iban_checkpairs(base)]
+                families.iban_checkpairs(base), families.subst_rechecked(base)]
         if filler in ("distinct", "natvalid"):
             gens.append(families.iban_prefixes(base))
             gens.append(families.ws_padding(base))
@@ -229,7 +229,7 @@ def iban_shard(args):
         for body in c06.bodies(country, tier, ["distinct", "min"]):
             good = nat.with_check(country, body)
             if good is None:
-                continue
+                good = body  # no value of the check field is valid (e.g. NO, digit 10): still a case
             text = bases.iban_text(country, good)
             part["evals"] += 7
             part.seen.add(hash(text))
@@ -249,6 +249,24 @@ def german_method_cases(part, tier):
     (national validation dispatches into the method objects only for listed banks)."""
     from . import c07, c14
     pools = c07.pools()
+    # banks whose registry entry names a method the reference does not know (the library may or may
+    # not implement it): a handful of accounts through all entry points
+    named = sorted({e.get("checksum_algo") for es in lookup.by_key().values() for e in es
+                    if e.get("country_code") == "DE" and e.get("checksum_algo")})
+    for m in named:
+        if m in pools:
+            continue
+        code = c14.bank_for_method(m)
+        if code is None:
+            continue
+        for acct in ("1234567890", "0000000001", "9999999999"):
+            text = bases.iban_text("DE", code + acct)
+            part["evals"] += 7
+            part.seen.add(hash(text))
+            for sig, exp, obs in judge_iban(text):
+                part.violation(f"{sig} [DE bank of method {m}, no reference]", {"kind": "iban_text", "text": text,
+                               "how": f"listed bank {code} (method {m})"}, exp, obs)
+        part.stat("german_methods_without_reference_through_iban")
     for m in sorted(pools):
         code = c14.bank_for_method(m)
         if code is None:
